@@ -146,24 +146,26 @@ class SymStreamH:
 class ConcStreamH:
     sym = False
 
-    def __init__(self, data):
-        self.data = data
-        self.N = len(data)
+    def __init__(self, full, N=None):
+        self.full = full
+        self.N = len(full) if N is None else N
+        self.data = full[:self.N]
 
     def slice(self, lo, hi):
-        return self.data[lo:hi]
+        return self.data[max(lo, 0):max(hi, 0)]
 
     def whole(self):
         return self.data
 
     def byte(self, i):
-        return self.data[i]
+        # beyond the end: 0 (reference predicates guard with N themselves)
+        return self.full[i] if 0 <= i < len(self.full) else 0
 
     def be(self, off, n):
-        return int.from_bytes(self.data[off:off + n].ljust(n, b'\0'), 'big')
+        return int.from_bytes(self.full[off:off + n].ljust(n, b'\0'), 'big')
 
     def le(self, off, n):
-        return int.from_bytes(self.data[off:off + n].ljust(n, b'\0'),
+        return int.from_bytes(self.full[off:off + n].ljust(n, b'\0'),
                               'little')
 
     def has(self, off, lit):
@@ -248,14 +250,15 @@ class SymCtx(BaseCtx):
         for p in sym_cells:
             cells[p] = self.byte_var('%s_%d' % (name, p))
         zsegs = []
-        for start, vals in (segs or []):
+        for seg in (segs or []):
+            start, vals = seg[0], seg[1]
             zv = []
             for x in vals:
                 if isinstance(x, tuple):
                     zv.append(self.byte_var(x[1]))
                 else:
                     zv.append(x)
-            zsegs.append((z3.simplify(toint(start)), zv))
+            zsegs.append((z3.simplify(toint(start)), zv) + tuple(seg[2:]))
         st = Stream(name, cells, default, zsegs)
         self.reg.append((name, 'stream', (st, N)))
         return SymStreamH(st, N)
@@ -285,25 +288,36 @@ class SymCtx(BaseCtx):
             elif kind == 'stream':
                 st, N = v
                 n = evaluate(N, model)
-                out[name] = st.concretize(model, n)
+                # content far beyond the presented length is dropped
+                full = max(n, min(st.extent(model), 32 * 1024 * 1024))
+                if full > 256 * 1024 * 1024:
+                    raise EngineError('witness stream of %d bytes' % full)
+                # full content (fields beyond a truncated N included);
+                # the scenario's own N input says how much is presented
+                out[name] = st.concretize(model, full)
             elif kind == 'str':
                 out[name] = v.concrete(model)
         return out
 
     # ---- obligations
     def check(self, label, cond, unless=()):
+        props = self.p.get('props')
+        if props and label.split('-')[0] not in props:
+            return True
         for fid, pred in unless:
             if fid in self.findings:
                 cond = OR(cond, pred)
         self.checked.append(label)
         before = len(self.e.violations)
-        ok = self.e.require(label, cond)
-        if len(self.e.violations) > before:
-            v = self.e.violations[-1]
-            v.inputs = self.concretize(v.model)
-            v.params = self.p
-            if len(self.e.violations) >= self.e.max_violations:
-                raise Stop('violations')
+        try:
+            ok = self.e.require(label, cond)
+        finally:
+            if len(self.e.violations) > before:
+                v = self.e.violations[-1]
+                v.inputs = self.concretize(v.model)
+                v.params = self.p
+        if len(self.e.violations) >= self.e.max_violations:
+            raise Stop('violations')
         return ok
 
     def truth(self, c):
@@ -336,7 +350,7 @@ class ConcCtx(BaseCtx):
 
     def stream(self, name, N, sym_cells=(), fixed=None, default=0,
                segs=None):
-        return ConcStreamH(self.i[name])
+        return ConcStreamH(self.i[name], N)
 
     def str(self, name, n, domain=ALPHA):
         return self.i[name]
@@ -350,6 +364,9 @@ class ConcCtx(BaseCtx):
             raise PathAbort()
 
     def check(self, label, cond, unless=()):
+        props = self.p.get('props')
+        if props and label.split('-')[0] not in props:
+            return True
         for fid, pred in unless:
             if fid in self.findings and pred:
                 return True
